@@ -60,8 +60,11 @@ namespace OpenMEEG {
                 #pragma omp critical
                 #endif
                 {
-                    for (unsigned j=0; j<3; ++j)
-                        rhs(triangle.vertex(j).index()) += v(j)*coeff;
+                    // An exception must not leave the critical construct (the runtime would terminate the program): capture it here.
+                    e.Run([&](){
+                        for (unsigned j=0; j<3; ++j)
+                            rhs(triangle.vertex(j).index()) += v(j)*coeff;
+                    });
                 }
             });
         }
